@@ -147,7 +147,17 @@ func parseGetPromptParams(req *JSONRPCRequest) (name string, arguments map[strin
 			nil,
 		), false
 	}
-	arguments, _ = paramsMap["arguments"].(map[string]interface{})
+	if args, present := paramsMap["arguments"]; present && args != nil {
+		arguments, ok = args.(map[string]interface{})
+		if !ok {
+			return "", nil, newJSONRPCErrorResponse(
+				req.ID,
+				ErrCodeInvalidParams,
+				fmt.Sprintf("%v: arguments must be an object, got %T", errors.ErrInvalidParams, args),
+				nil,
+			), false
+		}
+	}
 	return name, arguments, nil, true
 }
 
